@@ -4,6 +4,7 @@ CONSTANTS Deltas = {0, 10, 21}
   MaxChunks = 2
   MaxBytes = 6
   Cap = 32
+  Ignores = {"none"}
   Variant = "finish_any_fin"
   Scripts1 = {1, 5}
   Scripts2 = {9}
